@@ -1205,6 +1205,31 @@ pub fn gen_c13(run: &mut Run, seed: u64, thorough: bool) {
         g.run.op("gw.epoch", "q");
         g.q_msg(&m0);
     }
+    // destinations that RELATE to the other inputs: the sender's own address string, the gateway's, the destination chain
+    // name, the payload as text — an announcement is made whatever the destination string says
+    {
+        let strkey = |a: &Addr, env: &soroban_sdk::Env| -> Vec<u8> {
+            let s = a.sdk(env).to_string();
+            let mut b = vec![0u8; s.len() as usize];
+            s.copy_into_slice(&mut b);
+            b
+        };
+        let own = strkey(&c_sender, &g.env);
+        let gwk = strkey(&g.gwaddr.clone(), &g.env);
+        for (dest, chain, nm) in [
+            (own.clone(), b"ethereum".to_vec(), "dest-is-sender-strkey"),
+            (gwk.clone(), b"ethereum".to_vec(), "dest-is-gateway-strkey"),
+            (b"ethereum".to_vec(), b"ethereum".to_vec(), "dest-equals-chain"),
+            (own.clone(), own.clone(), "dest-and-chain-are-sender-strkey"),
+        ] {
+            for (auth, acl) in [(AuthSpec::exact(&[c_sender.clone()]), "auth"), (AuthSpec::None, "nobody")] {
+                g.run.op(
+                    &format!("gw.call_contract {} {} {} {} {}", c_sender.tok(), hx(&chain), hx(&dest), hx(b"relation"), auth.tok()),
+                    &format!("{nm}-{acl}"),
+                );
+            }
+        }
+    }
     let extra = if thorough { 500 } else { 40 };
     for _ in 0..extra {
         let sz = g.rng.below(300) as usize;
